@@ -183,3 +183,114 @@ L('wf_minst_rs', [phi, m_], z3.Implies(z3.And(wf_rs(phi), mwf_rs(m_)), wf_rs(min
 L('mwf_rs_get', [m_, kk], z3.Implies(z3.And(mwf_rs(m_), mhas(m_, kk)), wf_rs(mget(m_, kk))), ind=m_, triggers=[mget(m_, kk)])
 L('mwf_rs_zip', [vs__, ps__], z3.Implies(ml_all_wf(ps__), mwf_rs(mzip(vs__, ps__))), ind=vs__, triggers=[mzip(vs__, ps__)],
   ih_extra=_tl_ps, split_depth=1)
+
+# --- serializer <-> machine: reading back what was written; memory index ---------------------------------------------------------------
+from . import sm as _sm
+acc__ = z3.Const('acc__', IdL)
+rest__ = z3.Const('rest__', IdL)
+L('il_cat_snoc', [vs__, kk, rest__], il_cat(il_snoc(vs__, kk), rest__) == il_cat(vs__, IDL.mk('icons', kk, rest__)), ind=vs__,
+  triggers=[il_cat(il_snoc(vs__, kk), rest__)], rewrite=True)
+L('il_cat_nil', [vs__], il_cat(vs__, IDL.mk('inil')) == vs__, ind=vs__, triggers=[il_cat(vs__, IDL.mk('inil'))], rewrite=True)
+L('read_n_cat', [vs__, rest__, acc__], _sm.read_n(il_len(vs__), il_cat(vs__, rest__), acc__) == RDR.mk('rdone', il_cat(acc__, vs__), rest__),
+  ind=vs__, triggers=[_sm.read_n(il_len(vs__), il_cat(vs__, rest__), acc__)], uses=['il_len_nonneg', 'il_cat_snoc', 'il_cat_nil'],
+  ih_extra=lambda f, val, vars: [[(vars[2], il_snoc(vars[2], val.arg(0)))]], split_depth=1, rewrite=True)
+L('tl_index_has', [tl__, tt__], z3.Implies(tl_has(tl__, tt__), z3.And(tl_index(tl__, tt__) >= 0, tl_index(tl__, tt__) < tl_len(tl__),
+                                                                    tl_nth(tl__, tl_index(tl__, tt__)) == tt__)), ind=tl__,
+  triggers=[tl_index(tl__, tt__)], uses=['tl_len_nonneg'])
+L('read_n_all', [vs__, acc__], _sm.read_n(il_len(vs__), vs__, acc__) == RDR.mk('rdone', il_cat(acc__, vs__), IDL.mk('inil')), nonind=True,
+  triggers=[_sm.read_n(il_len(vs__), vs__, acc__)], rewrite=True,
+  hints=[('read_n_cat', [vs__, IDL.mk('inil'), acc__]), ('il_cat_nil', [vs__])])
+
+# --- Instantiate: slices / views vs the machine's operand loop -------------------------------------------------------------------------
+ptl__ = z3.Const('ptl__', PTL)
+tlw__ = z3.Const('tlw__', TL)
+tlr__ = z3.Const('tlr__', TL)
+ids__ = z3.Const('ids__', IdL)
+pls__ = z3.Const('pls__', ML)
+nn__ = z3.Int('nn__')
+mlq__ = z3.Const('mlq__', ML)
+L('ml_cat_nil', [ps__], ml_cat(ps__, MLs.mk('lnil')) == ps__, ind=ps__, triggers=[ml_cat(ps__, MLs.mk('lnil'))], rewrite=True)
+L('ml_cat_snoc', [ps__, psi, mlq__], ml_cat(ml_snoc(ps__, psi), mlq__) == ml_cat(ps__, MLs.mk('lcons', psi, mlq__)), ind=ps__,
+  triggers=[ml_cat(ml_snoc(ps__, psi), mlq__)], rewrite=True)
+L('ml_cat_nil_c', [ps__, mlq__], z3.Implies(MLs.is_('lnil', mlq__), ml_cat(ps__, mlq__) == ps__), ind=ps__, triggers=[ml_cat(ps__, mlq__)])
+L('il_cat_nil_c', [vs__, rest__], z3.Implies(IDL.is_('inil', rest__), il_cat(vs__, rest__) == vs__), ind=vs__, triggers=[il_cat(vs__, rest__)])
+L('ex_stack_lastn', [ptl__, nn__], ex_stack(ptl_lastn(ptl__, nn__)) == tl_taken(ex_stack(ptl__), nn__), ind=ptl__,
+  triggers=[ex_stack(ptl_lastn(ptl__, nn__))], rewrite=True, ih_extra=lambda f, val, vars: [[(vars[1], vars[1] - 1)]], split_depth=1)
+L('ex_stack_dropn', [ptl__, nn__], ex_stack(ptl_dropn(ptl__, nn__)) == tl_dropn(ex_stack(ptl__), nn__), ind=ptl__,
+  triggers=[ex_stack(ptl_dropn(ptl__, nn__))], rewrite=True, ih_extra=lambda f, val, vars: [[(vars[1], vars[1] - 1)]], split_depth=1)
+L('ex_stack_len', [ptl__], tl_len(ex_stack(ptl__)) == ptl_len(ptl__), ind=ptl__, triggers=[tl_len(ex_stack(ptl__))], rewrite=True)
+# a list whose top-n segment is W (of length n) is W followed by the rest
+L('tl_decompose', [tl__, nn__, tlw__], z3.Implies(z3.And(tl_taken(tl__, nn__) == tlw__, tl_len(tlw__) == nn__), tl__ == tl_cat(tlw__, tl_dropn(tl__, nn__))),
+  ind=tl__, triggers=[[tl_taken(tl__, nn__), tl_len(tlw__)]], uses=['tl_len_nonneg'],
+  ih_extra=lambda f, val, vars: [[(vars[1], vars[1] - 1), (vars[2], TLs.get('tcons', 'ttl', vars[2]))]], split_depth=2)
+# the machine's operand loop on n = |K| ids followed by r, over a stack that starts with the all-Pattern segment W, |W| = |K|
+L('take_acc_cat', [vs__, tlw__, rest__, tlr__, ids__, pls__],
+  z3.Implies(z3.And(il_len(vs__) == tl_len(tlw__), tl_allpat(tlw__)),
+             _sm.take_acc(tl_len(tlw__), il_cat(vs__, rest__), tl_cat(tlw__, tlr__), ids__, pls__) ==
+             TKR.mk('tdone', il_cat(ids__, vs__), ml_cat(pls__, tl_pats(tlw__)), rest__, tlr__)),
+  ind=vs__, triggers=[_sm.take_acc(tl_len(tlw__), il_cat(vs__, rest__), tl_cat(tlw__, tlr__), ids__, pls__)],
+  uses=['il_len_nonneg', 'tl_len_nonneg', 'il_cat_snoc', 'il_cat_nil', 'ml_cat_snoc', 'ml_cat_nil', 'ml_cat_nil_c', 'il_cat_nil_c'],
+  ih_extra=lambda f, val, vars: [[(vars[1], TLs.get('tcons', 'ttl', vars[1])), (vars[4], il_snoc(vars[4], val.arg(0))),
+                                  (vars[5], ml_snoc(vars[5], TRM.get('Pat', 'pat', TLs.get('tcons', 'thd', vars[1]))))]], split_depth=3)
+pt__ = z3.Const('pt__', PTerm)
+L('ptl_len_bottom', [ptl__, pt__], ptl_len(ptl_bottom(ptl__, pt__)) == ptl_len(ptl__) + 1, ind=ptl__, triggers=[ptl_len(ptl_bottom(ptl__, pt__))], rewrite=True)
+L('ex_stack_bottom', [ptl__, pt__], ex_stack(ptl_bottom(ptl__, pt__)) == tl_snoc(ex_stack(ptl__), ex_term(pt__)), ind=ptl__,
+  triggers=[ex_stack(ptl_bottom(ptl__, pt__))], rewrite=True)
+L('tl_allpat_snoc', [tl__, tt__], tl_allpat(tl_snoc(tl__, tt__)) == z3.And(tl_allpat(tl__), TRM.is_('Pat', tt__)), ind=tl__,
+  triggers=[tl_allpat(tl_snoc(tl__, tt__))], rewrite=True)
+L('tl_pats_snoc', [tl__, psi], tl_pats(tl_snoc(tl__, TRM.mk('Pat', psi))) == ml_snoc(tl_pats(tl__), psi), ind=tl__,
+  triggers=[tl_pats(tl_snoc(tl__, TRM.mk('Pat', psi)))], rewrite=True)
+L('pm_values_len', [pm_], ptl_len(pm_values(pm_)) == pm_len(pm_), ind=pm_, triggers=[ptl_len(pm_values(pm_))], rewrite=True, uses=['ptl_len_bottom'])
+L('pm_values_allpat', [pm_], tl_allpat(ex_stack(pm_values(pm_))), ind=pm_, triggers=[ex_stack(pm_values(pm_))], uses=['ex_stack_bottom', 'tl_allpat_snoc'])
+L('pm_values_pats', [pm_], tl_pats(ex_stack(pm_values(pm_))) == mvals_rev(expandmap(pm_)), ind=pm_, triggers=[ex_stack(pm_values(pm_))], crewrite=True, uses=['ex_stack_bottom', 'tl_pats_snoc'])
+L('pm_keys_rev_m', [pm_], pm_keys_rev(pm_) == mkeys_rev(expandmap(pm_)), ind=pm_, triggers=[pm_keys_rev(pm_)], rewrite=True)
+L('mkeys_rev_len', [m_], il_len(mkeys_rev(m_)) == mlen(m_), ind=m_, triggers=[il_len(mkeys_rev(m_))], rewrite=True, uses=['il_len_snoc'])
+L('mvals_rev_len', [m_], ml_len(mvals_rev(m_)) == mlen(m_), ind=m_, triggers=[ml_len(mvals_rev(m_))], rewrite=True, uses=['ml_len_snoc'])
+L('pm_len_m', [pm_], pm_len(pm_) == mlen(expandmap(pm_)), ind=pm_, triggers=[pm_len(pm_)], rewrite=True)
+L('mlen_nonneg', [m_], mlen(m_) >= 0, ind=m_, triggers=[mlen(m_)])
+# zipping the reversed keys with the reversed values gives a map with the same bindings
+L('mzip_snoc', [vs__, ps__, kk, psi], z3.Implies(il_len(vs__) == ml_len(ps__), mzip(il_snoc(vs__, kk), ml_snoc(ps__, psi)) == msnoc(mzip(vs__, ps__), kk, psi)),
+  ind=vs__, triggers=[mzip(il_snoc(vs__, kk), ml_snoc(ps__, psi))], uses=['ml_len_nonneg', 'il_len_nonneg'], ih_extra=_tl_ps, split_depth=2)
+L('msnoc_has', [m_, kk, psi, X], mhas(msnoc(m_, kk, psi), X) == z3.Or(mhas(m_, X), X == kk), ind=m_, triggers=[mhas(msnoc(m_, kk, psi), X)], rewrite=True)
+L('msnoc_get', [m_, kk, psi, X], mget(msnoc(m_, kk, psi), X) == z3.If(mhas(m_, X), mget(m_, X), z3.If(X == kk, psi, M.mk('EVar', z3.IntVal(-1)))), ind=m_,
+  triggers=[mget(msnoc(m_, kk, psi), X)], rewrite=True)
+L('mzip_rev_is_mrz', [m_], mzip(mkeys_rev(m_), mvals_rev(m_)) == mrz(m_), ind=m_, triggers=[mzip(mkeys_rev(m_), mvals_rev(m_))], rewrite=True,
+  uses=['mzip_snoc', 'mlen_nonneg', 'mkeys_rev_len', 'mvals_rev_len'], split_depth=1)
+L('mrz_lookup', [m_, X], z3.Implies(mdistinct(m_), z3.And(mhas(mrz(m_), X) == mhas(m_, X), z3.Implies(mhas(m_, X), mget(mrz(m_), X) == mget(m_, X)))),
+  ind=m_, triggers=[mhas(mrz(m_), X), mget(mrz(m_), X)], uses=['msnoc_has', 'msnoc_get'])
+L('minst_rs_mrz', [phi, m_], z3.Implies(mdistinct(m_), minst_rs(phi, mrz(m_)) == minst_rs(phi, m_)), ind=phi, crewrite=True,
+  triggers=[minst_rs(phi, mrz(m_))], uses=['mrz_lookup'])
+L('mv_hit_keys', [phi, m_], mv_hit(phi, mkeys_rev(m_)) == mv_hit_m(phi, m_), ind=phi, triggers=[mv_hit(phi, mkeys_rev(m_))], uses=['mem_mkeys_rev'], rewrite=True)
+L('mem_mkeys_rev', [m_, X], mem(X, mkeys_rev(m_)) == mhas(m_, X), ind=m_, triggers=[mem(X, mkeys_rev(m_))], uses=['mem_snoc'], rewrite=True)
+L('mem_snoc', [vs__, kk, X], mem(X, il_snoc(vs__, kk)) == z3.Or(mem(X, vs__), X == kk), ind=vs__, triggers=[mem(X, il_snoc(vs__, kk))], rewrite=True)
+_W = tl_taken(tl__, nn__)
+_take_all_stmt = z3.Implies(z3.And(tl_len(_W) == nn__, tl_allpat(_W), il_len(vs__) == nn__),
+                            _sm.take_acc(nn__, vs__, tl__, IDL.mk('inil'), MLs.mk('lnil')) ==
+                            TKR.mk('tdone', vs__, tl_pats(_W), IDL.mk('inil'), tl_dropn(tl__, nn__)))
+L('take_all', [tl__, nn__, vs__], _take_all_stmt, nonind=True, crewrite=True,
+  triggers=[_sm.take_acc(nn__, vs__, tl__, IDL.mk('inil'), MLs.mk('lnil'))],
+  hints=[('tl_decompose', [tl__, nn__, _W]),
+         ('take_acc_cat', [vs__, _W, IDL.mk('inil'), tl_dropn(tl__, nn__), IDL.mk('inil'), MLs.mk('lnil')]),
+         ('il_cat_nil', [vs__])], split_depth=1)
+_take_eq_stmt = z3.Implies(z3.And(tl_taken(tl__, nn__) == tlw__, tl_len(tlw__) == nn__, tl_allpat(tlw__), il_len(vs__) == nn__),
+                           _sm.take_acc(nn__, vs__, tl__, IDL.mk('inil'), MLs.mk('lnil')) ==
+                           TKR.mk('tdone', vs__, tl_pats(tlw__), IDL.mk('inil'), tl_dropn(tl__, nn__)))
+L('take_all_eq', [tl__, nn__, tlw__, vs__], _take_eq_stmt, nonind=True, crewrite=True,
+  triggers=[[_sm.take_acc(nn__, vs__, tl__, IDL.mk('inil'), MLs.mk('lnil')), tl_taken(tl__, nn__) == tlw__],
+            [_sm.take_acc(nn__, vs__, tl__, IDL.mk('inil'), MLs.mk('lnil')), tlw__ == tl_taken(tl__, nn__)]],
+  hints=[('tl_decompose', [tl__, nn__, tlw__]),
+         ('take_acc_cat', [vs__, tlw__, IDL.mk('inil'), tl_dropn(tl__, nn__), IDL.mk('inil'), MLs.mk('lnil')]),
+         ('il_cat_nil', [vs__])], split_depth=1)
+L('pm_values_tllen', [pm_], tl_len(ex_stack(pm_values(pm_))) == mlen(expandmap(pm_)), nonind=True, triggers=[ex_stack(pm_values(pm_))],
+  hints=[('ex_stack_len', [pm_values(pm_)]), ('pm_values_len', [pm_]), ('pm_len_m', [pm_])])
+L('mlen_zero', [m_], (mlen(m_) == 0) == MMp.is_('mnil', m_), ind=m_, triggers=[mlen(m_)], uses=['mlen_nonneg'])
+
+L('minst_rs_nohit_m', [phi, m_], z3.Implies(z3.And(wf_rs(phi), z3.Not(mv_hit_m(phi, m_))), minst_rs(phi, m_) == phi), ind=phi,
+  triggers=[[minst_rs(phi, m_), mv_hit_m(phi, m_)]], split_depth=1)
+L('ptl_wf_dropn', [ptl__, nn__], z3.Implies(ptl_wf(ptl__), ptl_wf(ptl_dropn(ptl__, nn__))), ind=ptl__, triggers=[ptl_dropn(ptl__, nn__)],
+  ih_extra=lambda f, val, vars: [[(vars[1], vars[1] - 1)]], split_depth=1)
+L('wf_py_is_rs', [phi], z3.Implies(wf_py(phi), wf_rs(phi)), ind=phi, triggers=[wf_py(phi)])
+
+L('pm_len_zero', [pm_], z3.And(pm_len(pm_) >= 0, (pm_len(pm_) == 0) == PMp.is_('pnil', pm_)), ind=pm_, triggers=[pm_len(pm_)])
+L('ptl_len_zero', [ptl__], z3.And(ptl_len(ptl__) >= 0, (ptl_len(ptl__) == 0) == PTLs.is_('ptnil', ptl__)), ind=ptl__, triggers=[ptl_len(ptl__)])
+L('il_len_zero', [vs__], z3.And(il_len(vs__) >= 0, (il_len(vs__) == 0) == IDL.is_('inil', vs__)), ind=vs__, triggers=[il_len(vs__)])
